@@ -162,6 +162,35 @@ func (x *Exec) libCall2(s *State, site ssa.Instruction, fn *ssa.Function, name s
 		x.used(name + " (no effect on verified state)")
 		k(s, x.freshResult(s, site, res))
 		return true
+	case "os.Getwd":
+		x.used(name + ": ufs_getwd() or an error")
+		e := x.freshErr(s, site, "getwd.err")
+		k(s, &TupleV{E: []Val{Ite(e.Nil, UF("ufs_getwd", SString, Int(0)), Str("")), e}})
+		return true
+	case "os/user.Lookup":
+		// a non-nil *User with HomeDir = ufs_homedir(name), or an error
+		x.used(name + ": a user whose HomeDir is ufs_homedir(name), or an error")
+		r := x.freshResult(s, site, res)
+		if tv, ok := r.(*TupleV); ok && len(tv.E) == 2 {
+			if pv, ok := tv.E[0].(*PtrV); ok && pv.Obj != nil {
+				if ev, ok := tv.E[1].(*IfaceV); ok {
+					s.assume(Implies(ev.Nil, Not(pv.Nil)))
+				}
+				if sv, ok := x.load(s, pv).(*StructV); ok {
+					if st, ok := under(sv.Typ).(*types.Struct); ok {
+						for i := 0; i < st.NumFields(); i++ {
+							if st.Field(i).Name() == "HomeDir" {
+								if ht, ok := sv.F[i].(*Term); ok {
+									s.assume(Eq(ht, UF("ufs_homedir", SString, T(0))))
+								}
+							}
+						}
+					}
+				}
+			}
+		}
+		k(s, r)
+		return true
 	case "golang.org/x/crypto/ssh.Dial", "(*golang.org/x/crypto/ssh.Client).NewSession":
 		x.used(name + ": a non-nil result unless it fails (the host key callback of the configuration is asked before Dial succeeds: library behaviour, trusted)")
 		r := x.freshResult(s, site, res)
